@@ -56,6 +56,8 @@ STRENGTHENED = {
     "C17-8": "C17: rare long-lived-server case (1000-1500 client lives that begin and vanish against one service instance, probes in between)",
     "C11-9": "C11 corruption sub-check: fault region 'blocktail' (the last 28 bytes of a data or index block: restart offsets, restart count, checksum)",
     "C20-9": "C20 manifest sub-check: assignments through the pointer GetConfig() hands out, followed by Save (an invalid configuration must be rejected before anything is written)",
+    "C08-10": "C08 crash variant: buffer-boundary cases (shared generator gen.BufEdge: file ending at a record header or exactly between two fragments, recover, write, restart), Abandon rounds",
+    "C09-10": "C09: cfg.WALMaxSize drawn (4 KiB / 64 KiB / 256 KiB / default), so files of a case reach or exceed the size limit",
     "C13-4": "C13: real Replica state machine with injected transient apply failures (error state -> recovery -> new stream)",
     "C15-4": "C15: primary with a pre-history (older log files in the directory) so that the ack path's retention pass has work to do",
 }
